@@ -1,5 +1,6 @@
 import FluentVerif.Proto.Decode
 import FluentVerif.Proto.Encode
+import FluentVerif.Proto.Equal
 /-! # The small hand-written functions of `fluent/protocol/transport.go`, as the translator emits them
 
 `EventTime.MarshalBinaryTo`, `EventTime.UnmarshalBinary`, `EntryList.UnmarshalPacked`, `EntryList.MarshalPacked`: each statement is
@@ -14,6 +15,7 @@ inductive TStmt
   | ifLenWrong | getSeconds | getNanos | setUnix               -- UnmarshalBinary
   | locals | truncate | whileEntries | retBitsErr              -- UnmarshalPacked
   | poolGet | reset | deferPut | forEncode | retCopy           -- MarshalPacked
+  | ifLenDiffer | makeFirst | copyFirst | makeSecond | copySecond | initMatches | initUsed | matchLoops | retMatchesEqLen   -- Equal
   | unknown (src : String)
 deriving DecidableEq, Repr
 
@@ -89,6 +91,31 @@ def runMP (es : List (Instant × GoVal)) : List TStmt → MP → Option (Option 
       | none => some none                                              -- return nil, err
     | none => none                                                     -- written into a buffer that was not reset: whatever it held goes out too
   | .retCopy :: _, s => s.buf.map some
+  | _, _ => none
+
+/-! ### `func (el EntryList) Equal(e2 EntryList) bool` — over entries abstracted to a type with decidable equality ("same instant and
+deeply equal record", as in `Proto/Equal.lean`) -/
+structure EQ (α : Type) where
+  first : Option (List α) := none
+  second : Option (List α) := none
+  cnt : Option Nat := none          -- `matches`
+  used : Option (List (α × Bool)) := none     -- the second list with its `used` marks
+
+/-- `for _, ea := range first { for i, eb := range second { if used[i] { continue }; if <equal> { used[i] = true; matches++; break } } }`:
+the inner loop marks the first unused equal element (`Equal.markFirst`), the outer loop counts (`Equal.countMatches`) -/
+def runEQ {α : Type} [DecidableEq α] (l1 l2 : List α) : List TStmt → EQ α → Option Bool
+  | .ifLenDiffer :: r, s => if l1.length ≠ l2.length then some false else runEQ l1 l2 r s
+  | .makeFirst :: r, s => runEQ l1 l2 r s
+  | .copyFirst :: r, s => runEQ l1 l2 r { s with first := some l1 }
+  | .makeSecond :: r, s => runEQ l1 l2 r s
+  | .copySecond :: r, s => runEQ l1 l2 r { s with second := some l2 }
+  | .initMatches :: r, s => runEQ l1 l2 r { s with cnt := some 0 }
+  | .initUsed :: r, s => s.second.bind fun l => runEQ l1 l2 r { s with used := some (l.map (·, false)) }
+  | .matchLoops :: r, s =>
+    match s.first, s.used, s.cnt with
+    | some f, some u, some m => runEQ l1 l2 r { s with cnt := some (m + Equal.countMatches f u) }
+    | _, _, _ => none
+  | .retMatchesEqLen :: _, s => s.cnt.map fun m => m == l1.length
   | _, _ => none
 
 end FV.Sk.Tr
